@@ -1,45 +1,57 @@
 (* Operation scripts over the raw engine (property C03's correspondence): build raw nodes, add
-   dependencies, run a transaction that fires chosen source nodes in a chosen queue order. *)
+   dependencies, run a transaction that fires chosen source nodes in a chosen queue order.
+   `ENodeD ds dm` builds a DEMANDING node: static dependencies ds, potential demand targets dm; its update
+   closure, when the first static dependency fired, demands every node of dm
+   (`sodium_ctx.update_node2(target, true)` from inside the update) and then applies the same rule to the
+   firings of ds followed by those of dm. *)
 From Coq Require Import List Arith Bool.
 Import ListNotations.
 From Sodium Require Import Engine.
 
-Definition is_some {A} (o : option A) : bool := match o with Some _ => true | None => false end.
-
 (* the rule installed in every raw node of the scripts: injective enough that a stale or missing
    input changes the result *)
-Definition Fmix : rule nat := fun n ins =>
+Definition Fmix : nat -> list (option nat) -> option nat := fun n ins =>
   if existsb is_some ins
   then Some ((n + fold_left (fun acc o => acc * 3 + match o with Some v => S v | None => 0 end) ins 0) mod 1009)
   else None.
 
+(* the rule of the engine for script nodes: Fmix of the firings of the static dependencies followed by the
+   firings of the demanded nodes *)
+Definition Fscript : rule nat := fun n ins exs => Fmix n (ins ++ exs).
+
+(* the demand function of the scripts, for the graph gr the transaction starts from: a node demands all
+   its potential targets when its first static dependency fired, nothing otherwise *)
+Definition sDm (gr : graph nat) : demand nat := fun n ins =>
+  if is_some (nth 0 ins None) then dem (get gr n) else [].
+
 Inductive eop :=
 | ENode (ds : list nat)                  (* Node::new with these dependencies *)
+| ENodeD (ds : list nat) (dm : list nat) (* a node that demands dm from inside its update; ENode ds = ENodeD ds [] *)
 | EAddDep (n m : nat)                    (* n.add_dependency(m) *)
 | ETxn (fs : list (nat * nat)).          (* one transaction: fire (node, value) in this queue order *)
 
-Definition mknode {Val} ds : node Val :=
-  {| deps := ds; dependents := []; visited := false; done := false; changed := false; fire := None |}.
+Definition mknode {Val} ds dm : node Val :=
+  {| deps := ds; dem := dm; dependents := []; visited := false; done := false; changed := false; fire := None |}.
 
 Definition add_dependent {Val} (gr : graph Val) (d n : nat) : graph Val :=
   let x := get gr d in
-  set gr d {| deps := deps x; dependents := dependents x ++ [n]; visited := visited x; done := done x;
+  set gr d {| deps := deps x; dem := dem x; dependents := dependents x ++ [n]; visited := visited x; done := done x;
               changed := changed x; fire := fire x |}.
 
 Definition add_dep {Val} (gr : graph Val) (n m : nat) : graph Val :=
   let x := get gr n in
-  let gr1 := set gr n {| deps := deps x ++ [m]; dependents := dependents x; visited := visited x; done := done x;
+  let gr1 := set gr n {| deps := deps x ++ [m]; dem := dem x; dependents := dependents x; visited := visited x; done := done x;
                          changed := changed x; fire := fire x |} in
   add_dependent gr1 m n.
 
 Definition fire_source {Val} (gr : graph Val) (n : nat) (v : Val) : graph Val :=
   let x := get gr n in
-  set gr n {| deps := deps x; dependents := dependents x; visited := visited x; done := done x;
+  set gr n {| deps := deps x; dem := dem x; dependents := dependents x; visited := visited x; done := done x;
               changed := true; fire := Some v |}.
 
 (* what the pre_post closures do: clear visited flags, firing slots and changed flags *)
 Definition cleanup {Val} (gr : graph Val) : graph Val :=
-  map (fun x => {| deps := deps x; dependents := dependents x; visited := false; done := false;
+  map (fun x => {| deps := deps x; dem := dem x; dependents := dependents x; visited := false; done := false;
                    changed := false; fire := None |}) gr.
 
 Definition in_range {Val} (gr : graph Val) (l : list nat) : bool := forallb (fun d => Nat.ltb d (length gr)) l.
@@ -52,7 +64,13 @@ Definition estep (orig : bool) (gr : graph nat) (op : eop) : graph nat * eout :=
   | ENode ds =>
     if in_range gr ds then
       let n := length gr in
-      (fold_left (fun g d => add_dependent g d n) ds (gr ++ [mknode ds]), None)
+      (fold_left (fun g d => add_dependent g d n) ds (gr ++ [mknode ds []]), None)
+    else (gr, None)
+  | ENodeD ds dm =>
+    (* registered among the dependents of its static dependencies only *)
+    if in_range gr (ds ++ dm) then
+      let n := length gr in
+      (fold_left (fun g d => add_dependent g d n) ds (gr ++ [mknode ds dm]), None)
     else (gr, None)
   | EAddDep n m =>
     if in_range gr [n; m] then (add_dep gr n m, None) else (gr, None)
@@ -60,7 +78,7 @@ Definition estep (orig : bool) (gr : graph nat) (op : eop) : graph nat * eout :=
     if in_range gr (map fst fs) then
       let gr1 := fold_left (fun g nv => fire_source g (fst nv) (snd nv)) fs gr in
       let N := length gr in
-      match drain Fmix orig (S (S N)) (S (S (N + N))) {| g := gr1; queue := map fst fs; log := [] |} with
+      match drain Fscript (sDm gr) orig (S (S N)) (S (S (N + N))) {| g := gr1; queue := map fst fs; log := [] |} with
       | Some s => (cleanup (g s), Some (rev (log s), map fire (g s)))
       | None => (gr, Some ([], []))       (* out of fuel: excluded by EngineFuel's theorem; printed as such *)
       end
